@@ -2,6 +2,8 @@ package main
 
 import (
 	"fmt"
+	"syscall"
+	"unsafe"
 
 	"github.com/dgraph-io/ristretto/v2/z/simd"
 
@@ -122,6 +124,27 @@ func c20(tier string, r *ev.Run, replay string) {
 			}
 		}
 	}
+	// the empty input in its three shapes: nil, empty with a readable base (covered above), and
+	// empty with a base that must not be touched (first byte of an inaccessible page)
+	guard := c20GuardPage()
+	for _, k := range ks {
+		for name, xs := range map[string][]uint64{"nil": nil, "empty-at-inaccessible-page": guard} {
+			func() {
+				defer func() {
+					if rec := recover(); rec != nil {
+						r.Violation("C20/empty-slice-faults", fmt.Sprintf("simd.Search(%s slice, k=%d) faulted: %v", name, k, rec), map[string]any{"slice": name, "k": k})
+					}
+				}()
+				if xs == nil && name != "nil" {
+					return
+				}
+				evals++
+				if got := simd.Search(xs, k); got != 0 {
+					r.Violation("C20/empty-slice-wrong-result", fmt.Sprintf("simd.Search(%s slice, k=%d)=%d, want 0", name, k, got), map[string]any{"slice": name, "k": k})
+				}
+			}()
+		}
+	}
 	r.Sample(c20Case{L: 2, P: 1, K: 50, Tail: 0b0001, Fill: ^uint64(0)})
 	r.Sample(c20Case{L: 14, P: 7, K: 1 << 63, Tail: 0b0101, Fill: ^uint64(0)})
 	r.Cov["evaluations"] = evals
@@ -129,4 +152,25 @@ func c20(tier string, r *ev.Run, replay string) {
 	r.Cov["rule"] = fmt.Sprintf("every even len 0..%d x every first-match position 0..len/2 x k in %v x all 16 {<k,>=k} patterns of the 4 key slots past the slice (distinct = (len,pos,tail) triples with len>0); oracle: Search == Naive and identical across tail patterns", maxL, ks)
 	r.Cov["exhaustive"] = true
 	r.Assume = []string{"the kernel only compares keys with k (>= unsigned), so {k-1,k}-valued keys represent all contents", "amd64 assembly kernel is what runs on this machine"}
+}
+
+// c20GuardPage returns an EMPTY []uint64 whose base pointer is the first byte of a PROT_NONE
+// page (nil if the mapping cannot be made): reading even one word from it faults.
+func c20GuardPage() []uint64 {
+	ps := syscall.Getpagesize()
+	b, err := syscall.Mmap(-1, 0, 2*ps, syscall.PROT_READ|syscall.PROT_WRITE, syscall.MAP_ANON|syscall.MAP_PRIVATE)
+	if err != nil {
+		return nil
+	}
+	if err := syscall.Mprotect(b[ps:], syscall.PROT_NONE); err != nil {
+		return nil
+	}
+	// build the header by hand: slicing to zero capacity would not advance the base pointer
+	var xs []uint64
+	hdr := (*struct {
+		p    unsafe.Pointer
+		l, c int
+	})(unsafe.Pointer(&xs))
+	hdr.p = unsafe.Add(unsafe.Pointer(&b[0]), ps)
+	return xs
 }
